@@ -453,6 +453,27 @@ func runC10(c *runCfg) error {
 				id++
 			}
 		}
+		// the Sync that ends a failed batch is itself above the limit: it is refused, but it is still the end of the
+		// batch — what follows it is processed normally (also when the batch failed on an ordinary error)
+		for _, first := range [][]byte{msg('P', make([]byte, L+3)), mExecute([]byte("nosuch"), 0), mBind(nil, []byte("nosuch"), nil, nil, nil)} {
+			if len(first)-5 > L && first[0] != 'P' {
+				continue
+			}
+			for _, after := range [][][]byte{{mQuery([]byte("select 1"))}, {mFlush(), mQuery([]byte("select 1"))}, {mParse(nil, []byte("select 1"), 0), mSync()}, {mSync(), mQuery([]byte("select 1"))}} {
+				fits := true
+				for _, m := range after {
+					if len(m)-5 > L {
+						fits = false
+					}
+				}
+				if !fits {
+					continue
+				}
+				msgs := append([][]byte{first, msg('S', make([]byte, L+1+len(after)))}, after...)
+				emitSession(c, lockCase(id, "oversized_sync", cfg, su, msgs))
+				id++
+			}
+		}
 		// the skipped region split over several reads
 		big := msg('Q', make([]byte, 3*L+7))
 		raw := cat(su, big, mSync())
